@@ -82,7 +82,8 @@ fn main() {
             let b = hex::decode(hexs.trim()).expect("hex");
             let d = gen_lisp::Dialect::parse(&arg_after(&args, "--dialect").unwrap_or_else(|| "cl23".into())).expect("dialect");
             let okd = gen_lisp::Dialect::parse(&arg_after(&args, "--ok-dialect").unwrap_or_else(|| "cl21".into())).expect("ok dialect");
-            let case = props::c01::decode_case(&b, tier, None);
+            let is_c10 = args.get(2).map(|x| x == "C10").unwrap_or(false);
+            let start_prog = if is_c10 { props::c10::decode_bad(&b, tier).expect("no defect") } else { props::c01::decode_case(&b, tier, None).prog };
             let exe = std::env::current_exe().unwrap();
             let run = |text: &str, limit: u64| -> (Option<i32>, bool, String) {
                 use std::process::{Command, Stdio};
@@ -101,17 +102,19 @@ fn main() {
                 (st.code(), st.code().is_none(), out)
             };
             let mut still = |p: &gen_lisp::Program| -> bool {
-                let ok21 = run(&gen_lisp::render_program(p, Some(okd)), 40);
-                if !ok21.2.contains("CODE:") {
-                    return false;
+                if !is_c10 {
+                    let ok21 = run(&gen_lisp::render_program(p, Some(okd)), 40);
+                    if !ok21.2.contains("CODE:") {
+                        return false;
+                    }
                 }
                 let r = run(&gen_lisp::render_program(p, Some(d)), 15);
                 let hang = r.0 == Some(124) || r.0 == Some(134) || r.1;
                 eprintln!("candidate size {} hang={hang}", gen_lisp::render_program(p, None).len());
                 hang
             };
-            assert!(still(&case.prog), "original does not hang");
-            let red = reduce::reduce_program(&case.prog, &mut still, 2000);
+            assert!(still(&start_prog), "original does not hang");
+            let red = reduce::reduce_program(&start_prog, &mut still, 2000);
             println!("{}", gen_lisp::render_program(&red, Some(d)));
         }
         "show" => {
